@@ -86,7 +86,7 @@ class DataView(DataSet):
                 "Reason is: {}".format(self._error_message)
             )
         tsl = self._slices
-        if sl:
+        if sl is not None:
             tsl = self._transform_coordinates(sl)
         super(DataView, self)._write_data(data, tsl)
 
